@@ -26,7 +26,7 @@ RULE = ("histories: ladders of 2..8 real replicas (Ising: beta / J / Gamma / h /
         "tempering_step() at the C17 cadence with the same container words (final ladder, returned samples and energies, "
         "total_swaps, container-RNG consumption must agree); every tempering step of the manual history is a C10 case "
         "(after-state, decision log, counters; every second one with all swap probabilities and the order draw bisected) "
-        "and a rayon-step case. grow: ladders grown between tempering steps (add_qmc_stepper / tempering_step / parallel_tempering_step interleaved, 0..8 replicas), every step a full C10 case. Non-trivial = history with at least one tempering step / step with a rejected or evaluated "
+        "and a rayon-step case. gmixed: admission of generic replicas (all equal / scaled magnitudes with the same zero pattern / one term changed / sub-EPSILON control; also through into_qmc of Ising samplers with different couplings): a replica whose Hamiltonian differs from its predecessor must be refused by add_qmc_stepper and can_swap_graphs; admitted ladders are stepped and judged by the swap-probability oracle. grow: ladders grown between tempering steps (add_qmc_stepper / tempering_step / parallel_tempering_step interleaved, 0..8 replicas), every step a full C10 case. Non-trivial = history with at least one tempering step / step with a rejected or evaluated "
         "decision; distinct = distinct full case text.")
 
 
@@ -39,6 +39,8 @@ def main(ck):
         ck.correspond("histories", "drv_c05", cases)
         cases = ck.harness("c05", ["grow"])
         ck.correspond("grow", "drv_c05", cases)
+        cases = ck.harness("c05", ["gmixed"])
+        ck.correspond("gmixed", "drv_c05", cases)
         ck.extra_trusted.append("Spy delegation wrapper in harness/src/bin/c10.rs (each tempering-step case is re-run on an unwrapped container and must end in the same state)")
         ck.extra_trusted.append("rayon scheduling / Rust aliasing rules for par_iter_mut (serial = parallel is observed on the same words, not proved)")
         ck.assumptions.append("each replica's own time-step kernel leaves its own SSE weight W_i invariant (C01-C04, C08, C09); strings legal (C07); beta > 0")
